@@ -228,6 +228,19 @@ def generate(rnd, tier):
                 and rnd.random() < 0.45:
             op["faults"] = [gen_fault(rnd, True) for _ in range(rnd.choice([1, 1, 2]))]
         ops.append(op)
+    if rnd.random() < 0.02:
+        # a missing score (NaN) in the data: what a threshold comparison means for it is open, but which label it and its
+        # neighbours carry is not - labels stay attached through sorting, and a group is the rows with that label
+        o_ = gen_gs(rnd, False)
+        o_.pop("perm", None)
+        o_["via"], o_["dtype"], o_["swaps"] = "init", "float64", 0
+        o_.pop("container", None)
+        for key in ("pos", "neg"):
+            if len(o_[key]) >= 2 and rnd.random() < 0.7:
+                o_[key] = [float(v) for v in o_[key]]
+                o_[key][rnd.randrange(len(o_[key]) - 1)] = float("nan")
+        objects = [o_]
+        ops = [{"op": "getitem", "obj": 0, "which": rnd.randrange(8)} for _ in range(rnd.randint(2, 5))]
     return {"np_seed": rnd.randrange(2**31), "objects": objects, "ops": ops}
 
 
@@ -279,7 +292,8 @@ class Model:
 def pair_counter(scores, labels):
     from collections import Counter
 
-    return Counter(zip(np.asarray(scores).tolist(), np.asarray(labels).tolist()))
+    sc_ = ["nan" if isinstance(v, float) and v != v else v for v in np.asarray(scores).tolist()]  # NaN is one value here
+    return Counter(zip(sc_, np.asarray(labels).tolist()))
 
 
 def thr_array(t):
@@ -331,7 +345,8 @@ def audit(o, model, viol, tags, where, full=True):
     def bad(name, detail):
         viol.append({"invariant": f"C12.{name}", "detail": f"{detail} [{where}]", "tags": tags})
 
-    if not (M.is_sorted(o.pos) and M.is_sorted(o.neg)):
+    has_nan = bool(np.isnan(np.asarray(o.pos, dtype=float)).any() or np.isnan(np.asarray(o.neg, dtype=float)).any())
+    if not has_nan and not (M.is_sorted(o.pos) and M.is_sorted(o.neg)):
         bad("sorted", "scores are not sorted")
     if len(o.pos) != len(o.pos_groups) or len(o.neg) != len(o.neg_groups):
         bad("pairs", "score and label arrays differ in length")
@@ -357,8 +372,8 @@ def check_getitem(o, model, g, viol, tags, where, value=None):
         viol.append({"invariant": "C12.getitem", "detail": f"gs[{g!r}] raised {type(e).__name__}: {e} [{where}]", "tags": tags})
         return
     p, n = model.rows(g)
-    okp = isinstance(s, L.Scores) and np.array_equal(np.asarray(s.pos, dtype=float), p)
-    okn = isinstance(s, L.Scores) and np.array_equal(np.asarray(s.neg, dtype=float), n)
+    okp = isinstance(s, L.Scores) and np.array_equal(np.asarray(s.pos, dtype=float), p, equal_nan=True)
+    okn = isinstance(s, L.Scores) and np.array_equal(np.asarray(s.neg, dtype=float), n, equal_nan=True)
     if not (okp and okn):
         viol.append({"invariant": "C12.getitem", "tags": tags,
                      "detail": f"gs[{g!r}] has pos={getattr(s, 'pos', None)!r} neg={getattr(s, 'neg', None)!r}; rows labelled {g!r} are pos={p!r} neg={n!r} [{where}]"})
